@@ -220,26 +220,33 @@ def __setitem__(self, indx, arg):
 
     else:                                    # post-mask is an array
 
-        # antimask is False wherever the index is masked; align it with the
-        # axes of the selection that are indexed by arrays
-        selection = self._values_[vals_index]
-        shape = selection.shape[:selection.ndim - self._rank_]
-        axes = len(shape) - array_loc - len(array_shape)
-        antimask = np.logical_not(np.broadcast_to(post_mask, array_shape))
-        antimask = antimask.reshape(array_shape + axes * (1,))
-        antimask = np.broadcast_to(antimask, shape)
+        # Write only where the index is not masked: every array index is
+        # broadcast to the array shape and reduced to the unmasked elements, so
+        # that a masked index element does not touch the object at all
+        keep = np.logical_not(np.broadcast_to(post_mask, array_shape))
+        kept_index = ()
+        for item in pre_index:
+            if not isinstance(item, np.ndarray):
+                kept_index += (item,)
+            else:
+                arrays = item.nonzero() if item.dtype == np.bool_ else (item,)
+                kept_index += tuple(np.broadcast_to(k, array_shape)[keep]
+                                    for k in arrays)
 
-        arg_values = np.broadcast_to(arg_values, selection.shape)
-        selection[antimask] = arg_values[antimask]
+        full_shape = np.shape(self._values_[vals_index])
+        shape = full_shape[:len(full_shape) - self._rank_]
+        where = array_loc * (slice(None),) + (keep,)
 
-        self._values_[vals_index] = selection
+        if has_ellipsis and self._rank_:
+            kept_vals_index = kept_index + self._rank_ * (slice(None),)
+        else:
+            kept_vals_index = kept_index
 
+        self._values_[kept_vals_index] = np.broadcast_to(arg_values,
+                                                         full_shape)[where]
         if np.shape(self._mask_):
-            selection = self._mask_[pre_index]
-            selection[antimask] = np.broadcast_to(arg_mask, shape)[antimask]
-
             self._mask_ = self._mask_.copy()    # copy; it might be shared
-            self._mask_[pre_index] = selection
+            self._mask_[kept_index] = np.broadcast_to(arg_mask, shape)[where]
 
     self._cache_.clear()
 
